@@ -410,6 +410,87 @@ def same_scope_family(ctx, rng, b, n):
             ctx.violation("C12/path-lists-expanded-in-different-scopes/%s" % "+".join(sorted(names)),
                           "the expression %r resolves to %r in one build line%s" % (expr, names, " (variable bound again in the statement's block)" if bound else ""), rep)
 
+def path_binding_family(ctx, rng, b, n):
+    """Rule variables are expanded late, in the build's scope, and "$in/$out are shell-quoted if they appear in commands" (manual):
+    a path-valued binding on the rule (depfile, rspfile, dyndep) spelled with $out/$in therefore names exactly <path><suffix>,
+    byte for byte, whatever characters the path contains - the same file the binding written out on the build statement names."""
+    alpha = "ab0_-.@=,;'()&+~%#!^{}[] :$x"
+    progs, metas = [], []
+
+    def esc_path(x):
+        return x.replace("$", "$$").replace(" ", "$ ").replace(":", "$:")
+
+    def esc_val(x):
+        return x.replace("$", "$$")
+    for _ in range(n):
+        def name(ext):
+            while True:
+                core = "".join(rng.choice(alpha) for _ in range(rng.randint(1, 6)))
+                if core[0] in " #." or core[-1] in " ." or "  " in core:
+                    continue
+                return (rng.choice(["", "", "o/", "d e/"]) + core + ext)
+        out, inp = name(".o"), name(".c")
+        via = rng.choice(["out", "out", "in"])
+        base = out if via == "out" else inp
+        with_dd = rng.random() < 0.6
+        keys = [k for k in ("depfile", "rspfile", "dyndep") if k != "dyndep" or with_dd]
+        suffix = {"depfile": ".d", "rspfile": ".rsp", "dyndep": ".dd"}
+        form = rng.choice(["$%s", "${%s}"]) % via
+        on_rule = ["rule r", "  command = c $in > $out"]
+        for k in keys:
+            on_rule.append("  %s = %s%s" % (k, form, suffix[k]))
+        if "rspfile" in keys:
+            on_rule.append("  rspfile_content = x")
+        line = "build %s: r %s" % (esc_path(out), esc_path(inp)) + (" || %s" % esc_path(base + ".dd") if with_dd else "")
+        p1 = "\n".join(on_rule + [line]) + "\n"
+        lit = ["rule r", "  command = c $in > $out", line]
+        for k in keys:
+            lit.append("  %s = %s" % (k, esc_val(base + suffix[k])))
+        if "rspfile" in keys:
+            lit.append("  rspfile_content = x")
+        p2 = "\n".join(lit) + "\n"
+        progs.append({"build.ninja": p1.encode("latin-1")})
+        progs.append({"build.ninja": p2.encode("latin-1")})
+        metas.append((out, base, keys, suffix))
+    res = run_probe(b, progs)
+    for i, (out, base, keys, suffix) in enumerate(metas):
+        r1, r2 = res[2 * i], res[2 * i + 1]
+        ctx.evaluations += 1
+        rep = {"files_hex": {k: v.hex() for k, v in progs[2 * i].items()}, "literal_files_hex": {k: v.hex() for k, v in progs[2 * i + 1].items()}}
+        for r in (r1, r2):
+            if r is not None and r.get("crash") is not None:
+                ctx.violation("C12/parser-crash/" + (util.san_signature(r["crash"]) or "crash"), r["crash"][-1200:], rep)
+                break
+        else:
+            if r1 is None or r2 is None:
+                ctx.inconclusive += 1
+                continue
+            if not r2.get("ok"):
+                # the literal form itself is not a valid manifest (should not happen with this alphabet): nothing to compare
+                ctx.count("path_binding_literal_rejected")
+                continue
+            special = any(ch not in "ab0_-./x" for ch in base)
+            if not r1.get("ok"):
+                ctx.violation("C12/valid-rejected/rule-level-path-binding/%s" % ("special" if special else "plain"),
+                              "bindings %s on the rule (spelled with $in/$out) are rejected: %s; the same manifest with the values written out on "
+                              "the build statement is accepted" % (keys, r1.get("err")), rep)
+                continue
+            e1 = next((x for x in r1["edges"] if out in x["outs"]), None)
+            e2 = next((x for x in r2["edges"] if out in x["outs"]), None)
+            if e1 is None or e2 is None:
+                ctx.inconclusive += 1
+                continue
+            ctx.count("path_binding_checks")
+            if special:
+                ctx.nontrivial(("path-binding", progs[2 * i]["build.ninja"]))
+            for k in keys:
+                want = base + suffix[k]
+                if e1[k] != want or e2[k] != want:
+                    ctx.violation("C12/path-binding-differs/%s/%s" % (k, "special" if special else "plain"),
+                                  "%s: on the rule (late expansion of $in/$out) it names %r, written out on the build statement %r, the path is %r" %
+                                  (k, e1[k], e2[k], want), rep)
+                    break
+
 
 def run(ctx):
     quick = ctx.tier == "quick"
@@ -428,6 +509,7 @@ def run(ctx):
     for p, r, k in zip(progs, res, kinds):
         judge(ctx, p, r, k)
     same_scope_family(ctx, rng, b, 1500 if quick else 30000)
+    path_binding_family(ctx, rng, b, 1500 if quick else 30000)
     ctx.rule = ("%d grammar-generated programs (1..4 files, include/subninja up to 3 levels) + %d single-token mutants each for half of "
                 "them; distinct_nontrivial = distinct programs on which the reference gave a definite verdict and ninja agreed (equal "
                 "graph or both reject)" % (nprog, nmut))
